@@ -404,8 +404,8 @@ def fingerprint_tail(rng, n):
 def main(tier, seed, scale=1.0):
     BIN['san'] = build.ensure('san')
     q = tier == 'quick'
-    counts = {'opus': 96 if q else 9600, 'inter': 36 if q else 3000, 'single': 24 if q else 2400, 'mmb': 12 if q else 600,
-              'flux': 36 if q else 3000, 'hdfs': 12 if q else 600}
+    counts = {'opus': 288 if q else 9600, 'inter': 96 if q else 3000, 'single': 72 if q else 2400, 'mmb': 36 if q else 600,
+              'flux': 96 if q else 3000, 'hdfs': 24 if q else 600}
     specs = []
     for k, n in counts.items():
         specs += [(seed, k, i, tier) for i in range(max(6, int(n * scale)))]
